@@ -609,7 +609,25 @@ func runC18(p *Prog, l *Ledger) {
 		for _, a := range p.Accesses(add) {
 			if a.Write && types.Identical(a.Field.Type, sm) {
 				n++
-				if strip(a.Val, false) != ssa.Value(add.Params[1]) {
+				stored := strip(a.Val, false)
+				// the sample kept as its IEEE bit pattern in an atomic word (math.Float64bits) is the sample, provided the
+				// reader decodes it the same way
+				if call, ok := stored.(*ssa.Call); ok {
+					if c := p.CallOf(call); c != nil && c.Name == "math.Float64bits" && len(c.Args) == 1 {
+						decodes := false
+						if get := p.Method(sm, "Get"); get != nil {
+							allInstrs(get, func(ins ssa.Instruction) {
+								if gc := p.CallOf(ins); gc != nil && gc.Name == "math.Float64frombits" {
+									decodes = true
+								}
+							})
+						}
+						if decodes {
+							stored = strip(c.Args[0], false)
+						}
+					}
+				}
+				if stored != ssa.Value(add.Params[1]) {
 					bad = append(bad, fmt.Sprintf("%s: stores %s instead of the sample", p.At(a.Instr), valueString(a.Val)))
 				}
 			}
